@@ -291,7 +291,33 @@ def run_case(c):
         exp_filled = np.zeros(len(wide), dtype=bool)
         exp_filled[inside] = d[tuple(wide[inside].T)]
         outside_ok = bool(np.array_equal(np.asarray(vg.is_filled(wpts), dtype=bool), exp_filled))
+        # history: after the queries above the grid is moved / rescaled / stripped in place; the two maps must still
+        # be inverse of one another and `is_filled` must still find exactly the filled cells
+        hist = {}
+        import trimesh as _tm
+        for how in ("translate", "scale", "strip", "apply_transform"):
+            g2 = _tm.voxel.VoxelGrid(d.copy(), transform=M.copy())
+            _ = g2.points_to_indices(g2.indices_to_points(idx)), g2.is_filled(pts)        # warm the cached inverse
+            try:
+                if how == "translate":
+                    g2.apply_translation([3.0, -2.0, 0.5]) if hasattr(g2, "apply_translation") else g2.transform.__class__.apply_translation(g2._transform, [3.0, -2.0, 0.5])
+                elif how == "scale":
+                    g2.apply_scale(2.0)
+                elif how == "strip":
+                    g2 = g2.strip() or g2
+                else:
+                    T_ = np.eye(4)
+                    T_[:3, 3] = [1.0, 2.0, -3.0]
+                    g2.apply_transform(T_)
+                sp = np.asarray(g2.sparse_indices)
+                ok_inv = bool(len(sp) == 0 or np.array_equal(g2.points_to_indices(g2.indices_to_points(sp)), sp))
+                ok_fill = bool(len(sp) == 0 or np.asarray(g2.is_filled(g2.indices_to_points(sp)), dtype=bool).all())
+                ok_pts = bool(len(sp) == 0 or np.allclose(np.asarray(g2.points), g2.indices_to_points(sp)))
+                hist[how] = bool(ok_inv and ok_fill and ok_pts)
+            except Exception as e_:
+                hist[how] = "exc:" + type(e_).__name__
         return {"roundtrip": bool(np.array_equal(back, idx)) and wide_ok and wide_jit_ok, "outside_ok": outside_ok,
+                "history": hist,
                 "volume": float(vg.volume), "filled": int(vg.filled_count),
                 "points0": pts[0].tolist(), "is_filled": _ints(vg.is_filled(pts)),
                 "sparse": sorted(map(tuple, np.asarray(vg.sparse_indices).tolist())),
@@ -508,6 +534,9 @@ def oracle(c, o):
             return {"kind": k, "fail": "volume"}
         if o["is_filled"] != c["bits"]:
             return {"kind": k, "fail": "is_filled"}
+        for how, ok_ in o.get("history", {}).items():
+            if ok_ is not True:
+                return {"kind": k, "fail": "maps-not-inverse-after-in-place-edit", "edit": how, "result": str(ok_)}
     elif k == "enc":
         if "build_err" in o:
             sg = {"kind": k, "enc": c["enc"], "view": "+".join(sorted(set(o["chain"]))) or "id", "read": "build",
